@@ -28,9 +28,10 @@ class ArithmeticOp(PureExec):
         elif self.arith_type == ArithmeticType.MUL:
             code = f"MUL("
         elif self.arith_type == ArithmeticType.DIV:
-            code = f"DIV("
+            # Both operands have the common type. C divides signed if it is signed.
+            code = f"SDIV(" if self.value_type.signed else f"DIV("
         elif self.arith_type == ArithmeticType.MOD:
-            code = f"MOD("
+            code = f"SMOD(" if self.value_type.signed else f"MOD("
         else:
             raise NotImplementedError(f"Arithmetic type {self.arith_type} not handled.")
         if (
